@@ -834,7 +834,7 @@ func TestC15OperatorFile(t *testing.T) {
 		if strings.Contains(file, "%s") {
 			file = fmt.Sprintf(file, login)
 		}
-		ops := rapid.SliceOfN(rapid.SampledFrom([]string{"edit", "password", "rename", "delete", "restart"}), 1, 4).Draw(rt, "ops")
+		ops := rapid.SliceOfN(rapid.SampledFrom([]string{"delete", "create-again", "password", "edit", "rename", "restart"}), 1, 5).Draw(rt, "ops")
 		old := hlsim.AccountSpec{Login: login, Name: "Original", Password: "oldpw", Access: hlref.AccessOf(hlref.PrivDownloadFile)}
 		var done []string
 		inWorld(rt, hlsim.Options{Accounts: []hlsim.AccountSpec{acct("admin", "Admin", "adminpw", allAccess), old}, Agreement: "a"}, func(rt *rapid.T, w *hlsim.World) {
@@ -890,6 +890,14 @@ func TestC15OperatorFile(t *testing.T) {
 					}
 					s.mustReply(s.admin.Request(hlref.TranDeleteUser, hlref.F(hlref.FUserLogin, hlref.Obfuscate([]byte(cur)))), "delete-user")
 					delete(s.model, cur)
+				case "create-again":
+					// after a deletion the login is given to a new account
+					if a != nil {
+						continue
+					}
+					cur = login
+					s.mustReply(s.admin.Request(hlref.TranNewUser, hlref.F(hlref.FUserLogin, hlref.Obfuscate([]byte(cur))), sfld(hlref.FUserName, "Created again"), hlref.F(hlref.FUserPassword, hlref.Obfuscate([]byte("oldpw"))), hlref.F(hlref.FUserAccess, make([]byte, 8))), "new-user")
+					s.model[cur] = &c15acct{name: "Created again", pw: "oldpw"}
 				case "restart":
 					if err := w.Restart(); err != nil {
 						rt.Fatalf("restart after [%s]: %v", strings.Join(done, ", "), err)
